@@ -55,6 +55,14 @@ Theorem C03_last_voted_dominates :
 Proof. exact last_voted_dominates. Qed.
 Print Assumptions C03_last_voted_dominates.
 
+(* Whether a signed vote could be handed to the network (Aggregate / Disseminate returning an
+   error or not) changes neither what is signed nor the state: a failed send never reopens a view. *)
+Theorem C03_send_result_irrelevant :
+  forall (leader : view -> rid) (self : rid) (agg : bool) es st b,
+    run leader self agg st (map (set_sent b) es) = run leader self agg st es.
+Proof. exact run_sent_irrelevant. Qed.
+Print Assumptions C03_send_result_irrelevant.
+
 (* The tree without the repair does not satisfy the first statement. *)
 Theorem C03_unpatched_verify_refuted :
   exists es st' out p,
@@ -80,14 +88,14 @@ Definition ex_good3 : proposal := mkP 4 13 3 11 11 1 true true (Some 1) true.
 Definition ex_equiv3 : proposal := mkP 4 14 3 11 11 1 true true (Some 1) true.
 Definition ex_own4 : ownprop := mkO 15 13 13 3 true true (Some 3) true.
 Definition ex_events : list event :=
-  [ EvProposal ex_good1 None;            (* vote view 1 *)
-    EvNewView true 1 None;               (* TC for view 1: enter view 2 *)
-    EvTimeout 2 true 0 None;             (* local timeout in view 2: sign timeout 2 *)
-    EvProposal ex_late2 None;            (* leader's block for view 2 arrives late: refused *)
-    EvNewView true 2 None;               (* TC for view 2: enter view 3 *)
-    EvProposal ex_good3 None;            (* vote view 3 *)
-    EvProposal ex_equiv3 None;           (* equivocating second block for view 3: refused *)
-    EvNewView true 3 (Some ex_own4) ].   (* QC for view 3: enter view 4 as leader, vote own block *)
+  [ EvProposal ex_good1 None false;       (* vote view 1; the vote cannot be sent *)
+    EvNewView true 1 None true;          (* TC for view 1: enter view 2 *)
+    EvTimeout 2 true 0 None true;        (* local timeout in view 2: sign timeout 2 *)
+    EvProposal ex_late2 None true;       (* leader's block for view 2 arrives late: refused *)
+    EvNewView true 2 None true;          (* TC for view 2: enter view 3 *)
+    EvProposal ex_good3 None true;       (* vote view 3 *)
+    EvProposal ex_equiv3 None true;      (* equivocating second block for view 3: refused *)
+    EvNewView true 3 (Some ex_own4) false ].  (* QC for view 3: enter view 4 as leader, vote own block *)
 Example C03_run_nonvacuous :
   run rr4 1 false init_state ex_events
   = (mkS 4 4 None,
@@ -96,6 +104,15 @@ Proof. vm_compute. reflexivity. Qed.
 
 (* the repaired Verify refuses both defect witnesses *)
 Example C03_repaired_refuses :
-  snd (run rr4 1 false init_state [EvProposal bad_parent None]) = [] /\
-  snd (run rr4 1 false (mkS 0 7 None) [EvProposal bad_view None]) = [].
+  snd (run rr4 1 false init_state [EvProposal bad_parent None true]) = [] /\
+  snd (run rr4 1 false (mkS 0 7 None) [EvProposal bad_view None true]) = [].
 Proof. vm_compute. split; reflexivity. Qed.
+
+(* the vote for view 1 could not be sent; the leader then equivocates with a second block for
+   view 1 and retransmits the first: nothing more is signed *)
+Definition ex_equiv1 : proposal := mkP 2 12 1 0 0 0 true true (Some 0) true.
+Example C03_failed_send_keeps_view_closed :
+  run rr4 1 false init_state
+      [EvProposal ex_good1 None false; EvProposal ex_equiv1 None true; EvProposal ex_good1 None true]
+  = (mkS 1 1 None, [SignVote ex_good1]).
+Proof. vm_compute. reflexivity. Qed.
